@@ -166,3 +166,66 @@ def jobs(rng, quick=True):
                                 minimize=(pat == "random")))
                 n += 1
     return out
+
+
+def builtin_codes_run(seed=0):
+    """A real run of built-in kernels that do report errors: an MHKernel whose user-written proposal returns a NaN
+    log-correction now and then, an RWKernel on a block with bounded support (NaN ratio outside it) and an IWLSKernel.
+    Per kernel: the codes found in the stored transition infos (direct numpy count, per phase) next to the kernel's
+    error book and to what Summary reports."""
+    import jax
+    import jax.numpy as jnp
+
+    import liesel.goose as gs
+    from liesel.goose.epoch import EpochConfig, EpochType
+
+    ev = {"ev": "builtin_codes", "crash": "", "kernels": []}
+    try:
+        def logp(s):
+            return -0.5 * jnp.sum(s["x"] ** 2) + jnp.sum(2.0 * jnp.log(s["g"]) - s["g"]) - 0.5 * jnp.sum((s["b"] - 0.3) ** 2)
+
+        def prop(key, ms, step):
+            k1, k2 = jax.random.split(key)
+            z = jax.random.normal(k1, ms["x"].shape)
+            corr = jnp.where(jax.random.uniform(k2) < 0.3, jnp.nan, 0.0)
+            return gs.MHProposal({"x": ms["x"] + step * z}, corr)
+
+        b = gs.EngineBuilder(seed=seed, num_chains=2)
+        b.set_model(gs.DictInterface(logp))
+        b.set_initial_values({"x": jnp.array([0.3], jnp.float32), "g": jnp.array([0.4], jnp.float32),
+                              "b": jnp.array([0.1, 0.2], jnp.float32)})
+        kernels = [gs.MHKernel(["x"], prop, initial_step_size=0.8), gs.RWKernel(["g"], initial_step_size=1.5),
+                   gs.IWLSKernel(["b"], initial_step_size=0.9)]
+        for k in kernels:
+            b.add_kernel(k)
+        b.set_epochs([EpochConfig(EpochType.INITIAL_VALUES, 1, 1, None), EpochConfig(EpochType.BURNIN, 12, 1, None),
+                      EpochConfig(EpochType.POSTERIOR, 24, 1, None)])
+        b.show_progress = False
+        eng = b.build()
+        eng.sample_all_epochs()
+        res = eng.get_results()
+        infos = res.transition_infos.combine_all().unwrap()
+        summ_err = ""
+        try:
+            summ = gs.Summary(res)
+        except Exception as ex:  # noqa: BLE001
+            summ, summ_err = None, f"{type(ex).__name__}: {ex}"[:120]
+        for k in kernels:
+            codes = np.asarray(infos[k.identifier].error_code)          # [chains, time]
+            seen = sorted(int(c) for c in np.unique(codes) if c != 0)
+            rec = {"cls": type(k).__name__, "ident": k.identifier, "seen": seen, "book": sorted(int(c) for c in k.error_book),
+                   "direct": [{"code": c, "total": [int(x) for x in (codes == c).sum(axis=1)],
+                               "post": [int(x) for x in (codes[:, 12:] == c).sum(axis=1)]} for c in seen],
+                   "summary_error": summ_err, "summary": []}
+            if summ is not None:
+                for code, es in summ.error_summary.get(k.identifier, {}).items():
+                    rec["summary"].append({"code": int(es.error_code), "msg": es.error_msg, "msg_in_book": es.error_msg == k.error_book.get(int(es.error_code)),
+                                           "total": [int(x) for x in es.count_per_chain],
+                                           "post": [int(x) for x in es.count_per_chain_posterior]})
+                rec["summary"].sort(key=lambda r: r["code"])
+            ev["kernels"].append(rec)
+    except Exception as ex:  # noqa: BLE001
+        import traceback
+        ev["crash"] = f"{type(ex).__name__}: {ex}"[:300] + " | " + traceback.format_exc()[-300:]
+    return {"hdr": {"kind": "builtin_codes", "seed": seed, "K": 0, "C": 0, "sched": [], "tbl": [], "names": [], "books": [], "J": 1},
+            "ev": [ev]}
